@@ -10,14 +10,14 @@ namespace Prov
 structure Ns where
   pfx : String
   uri : String
-  deriving DecidableEq, Repr, Inhabited, BEq
+  deriving DecidableEq, Repr, Inhabited
 
 /-- `prov.identifier.QualifiedName`. Python equality is URI equality (`Identifier.__eq__`);
     structural equality here is finer and is used only where the code compares namespaces. -/
 structure QName where
   ns  : Ns
   loc : String
-  deriving DecidableEq, Repr, Inhabited, BEq
+  deriving DecidableEq, Repr, Inhabited
 
 /-- `Identifier.uri` of a qualified name: `namespace.uri + localpart`. -/
 def QName.uri (q : QName) : String := q.ns.uri ++ q.loc
